@@ -58,7 +58,7 @@ def cases(tier, seed, info):
         out.append(dict(kind='docs', docs=batch, widths=[34, 29]))
     info['bound_lines'] = sum(len(c['docs']) for c in out)
     # (c) adversarial documents
-    n = 300 if tier == 'quick' else 6000
+    n = 300 if tier == 'quick' else 30000
     chars = ALPHA + ['}', '[', ']', '\n', '\t', 'é', '中', '\x01', 'b', '1', '/']
 
     def word():
@@ -77,7 +77,7 @@ def cases(tier, seed, info):
         out.append(dict(kind='docs', docs=docs[j:j + 100], widths=[34, 29]))
     info['adversarial_docs'] = n
     # (b) decoder / CLI
-    m = 60 if tier == 'quick' else 1500
+    m = 60 if tier == 'quick' else 5000
     for j in range(0, m, 10):
         out.append(dict(kind='pels', seed=seed * 1000 + j, n=10))
     info['pels'] = m
